@@ -100,6 +100,8 @@ def enabled(cfg):
         if act == 'Emit':
             return a['cb'] == '' or all(
                 c['next'] <= max_ack for c in s['cb'].values())
+        if act == 'Call':
+            return all(c['next'] <= max_ack for c in s['cb'].values())
         return True
     return en
 
@@ -364,3 +366,48 @@ CONFIGS['events_mp_quick'] = dict(CONFIGS['events_quick'],
                                   evs=['e_none', 'e_v', 'e_z', 'e_el', 'e_h',
                                        'e_tup2', 'e_unh', 'e_raise'])
 CONFIGS['acks_mp_quick'] = dict(CONFIGS['acks_quick'], serializer='msgpack')
+
+
+# ------------------------------------------------------------ server call()
+def calls(cfg):
+    A = base(cfg)
+    S = [sid(i) for i in range(1, cfg['max_sid'] + 1)]
+    T = cfg['transports']
+
+    def ack(t, id, args, ns='/'):
+        return {'act': 'RxAck', 't': t, 'ns': ns, 'id': id, 'args': args}
+
+    def lost(t):
+        return {'act': 'EioLost', 't': t, 'reason': 'transport close'}
+    durings = [[]]
+    for t in T:
+        for id in cfg['call_ack_ids']:
+            durings.append([ack(t, id, [])])
+            durings.append([ack(t, id, ['v1'])])
+        durings.append([ack(t, 1, ['v1', 'v2'])])
+        durings.append([lost(t)])
+        durings.append([lost(t), ack(t, 1, ['v1'])])
+        durings.append([ack(t, 1, ['v1']), ack(t, 1, ['v2'])])
+    durings.append([ack(T[0], 1, ['v1'], ns='/a')])
+    for ns in cfg['ns_api']:
+        for s in S:
+            for d in durings:
+                A.append(mk('Call', sid=s, ns=ns, ev='q', during=d))
+            A.append(mk('Emit', ns=ns, toKind='one', to=[s], skipKind='none',
+                        skip=[], ev='msg', data='v1', cb='c1'))
+    for t in T:
+        for ns in cfg['ns_api']:
+            for id in cfg['call_ack_ids']:
+                A.append(mk('RxAck', t=t, ns=ns, id=id, args=['v1']))
+    return A
+
+
+CONFIGS['calls_quick'] = dict(transports=['t1', 't2'], ns_h=['/'],
+                              ns_all=['/'], ns_api=['/'], max_sid=2,
+                              max_ack=2, call_ack_ids=[1, 2],
+                              async_handlers=True, alpha='calls')
+CONFIGS['calls_inline'] = dict(CONFIGS['calls_quick'], async_handlers=False,
+                               transports=['t1'], max_sid=1)
+CONFIGS['calls'] = dict(CONFIGS['calls_quick'], ns_h=['/', '/a'],
+                        ns_all=['/', '/a'], ns_api=['/', '/a'], max_sid=3,
+                        call_ack_ids=[0, 1, 2, 3])
